@@ -316,7 +316,14 @@ func genC08Input(t *rapid.T) (src string, origin string) {
 		if cut == 0 {
 			closers = d
 		}
-		switch rapid.IntRange(0, 6).Draw(t, "nestkind") {
+		switch rapid.IntRange(0, 9).Draw(t, "nestkind") {
+		case 7:
+			// a long left-deep chain of binary operators (cost must stay linear in its length)
+			return "set f to transform return match" + strings.Repeat(" + '-' + match", d/2+12) + " end replace all 'a' with f", "deepnest"
+		case 8:
+			return "set p to pattern any begin return match == 'a'" + strings.Repeat(" or match == 'b'", d+10) + " end find all p", "deepnest"
+		case 9:
+			return "set f to transform return 1" + strings.Repeat(" * 2 - 1", d/2+12) + " end replace all 'a' with f", "deepnest"
 		case 0:
 			return "find all " + strings.Repeat("( ", d) + "'a'" + strings.Repeat(" )", closers), "deepnest"
 		case 1:
